@@ -247,3 +247,42 @@ def c17(pid, tier, seed):
     finally:
         cleanup_scratch()
     return chk.finish(min_evaluations=500, min_distinct=50)
+
+
+def c12(pid, tier, seed):
+    chk = C.Check(pid, tier, seed)
+    chk.rule = ("fixed table (harness/vsupport/src/monitors/libtypes.rs) of every supported std type, [T; 0..=32] with values and 33..65 by name, "
+                "tuples of arity 1..=10, maps over every key type serde_json accepts, wrappers, ranges and the feature-gated crates that "
+                "build offline (chrono, bigdecimal, uuid, bson, bytes, url, indexmap, ordered-float, heapless, semver, smol_str, serde_json, "
+                "tokio), composed to depth 2 (thorough: 3) over user leaf types. Oracle: serde_json output of every listed value is a member "
+                "of name() and inline(); inhabitants of name() (strings of parsed formats taken from real samples) deserialize and "
+                "re-serialize into the type; documented kind per keyword; visit_generics reports exactly the user types among the arguments. "
+                "distinct_nontrivial = table entries with >= 1 oracle evaluation")
+    chk.assumptions = ["serde's `rc` feature is enabled in the harness so Rc/Arc/Weak serialize", "arrays longer than 32 have no serde impl: name only"]
+    try:
+        binp = build_fixed(())
+        res = run_sharded(binp, "C12", seed, tier, 1, "c12")
+        runs_ok(chk, res, "C12")
+        for r in res:
+            for e in r["events"]:
+                if e.get("ev") != "lib":
+                    continue
+                chk.add_eval(e["checked"])
+                if e["checked"] > 0:
+                    chk.add_distinct(e["rust"])
+                chk.hist("families", e["family"])
+                chk.hist("totals", "values", e["samples"])
+                chk.hist("totals", "witnesses", e["witnesses"])
+                if e["family"] in ("compose", "map", "chrono") and e.get("example") is not None:
+                    chk.sample({"rust": e["rust"], "ts": e["name"], "value": e["example"]}, limit=6)
+                for f in e["fails"]:
+                    if f["kind"].startswith("harness"):
+                        chk.note_inconclusive(f"{e['rust']}: {f['reason']}")
+                        continue
+                    key = f"C12|{f['kind']}|{e['rust']}"
+                    chk.violation(key, f"{e['rust']} (declared {e['name']}): {f['kind']}: {f.get('reason')} "
+                                       f"{str(f.get('value', f.get('witness', '')))[:120]}",
+                                  {"rust": e["rust"], "name": e["name"], "fail": f}, tags=[e["rust"], e["family"], f["kind"]])
+    finally:
+        cleanup_scratch()
+    return chk.finish(min_evaluations=500, min_distinct=100)
